@@ -229,6 +229,7 @@ mutual
     | .block _ => 0
     | .fnlit _ _ => 0
     | .call _ => 0
+    | .callNil _ => 0
   def nbCh : Ch3 → Nat
     | .nil => 0
     | .cons t r => nbT t + nbCh r
@@ -250,6 +251,7 @@ mutual
     | .block _, Γ => by simp [compileT, nbT]
     | .fnlit _ _, Γ => by simp [compileT, nbT]
     | .call _, Γ => by simp [compileT, nbT]
+    | .callNil _, Γ => by simp [compileT, nbT]
   theorem compileCh_len : (c : Ch3) → (Γ : List String) → (compileCh Γ c).2.length = Γ.length + nbCh c
     | .nil, Γ => by simp [compileCh, nbCh]
     | .cons t r, Γ => by
@@ -309,6 +311,11 @@ mutual
       simp only [Prod.mk.injEq] at hv
       exact ⟨[], by simp [hv.2], rfl⟩
     | .call _, Γ, L, flow, v, L', h => by
+      simp only [evalT, Option.bind_eq_some_iff, Option.map_eq_some_iff] at h
+      obtain ⟨i, _, fv, _, res, _, hv⟩ := h
+      simp only [Prod.mk.injEq] at hv
+      exact ⟨[], by simp [hv.2], rfl⟩
+    | .callNil _, Γ, L, flow, v, L', h => by
       simp only [evalT, Option.bind_eq_some_iff, Option.map_eq_some_iff] at h
       obtain ⟨i, _, fv, _, res, _, hv⟩ := h
       simp only [Prod.mk.injEq] at hv
@@ -581,6 +588,30 @@ mutual
       have b : ARunsC O P code cs (pc + 1, fv :: flow :: rest, L) (pc + 1 + 1, res :: rest, L) :=
         .call fv flow res (Located.tail hl).head hres (.refl _)
       exact a.trans b
+    | .callNil x, Γ, pc, flow, rest, L, v, L', hl, _, _, hev => by
+      simp only [evalT, Option.bind_eq_some_iff, Option.map_eq_some_iff] at hev
+      obtain ⟨i, hi, fv, hfv, res, hres, hv⟩ := hev
+      simp only [Prod.mk.injEq] at hv
+      obtain ⟨rfl, rfl⟩ := hv
+      simp only [compileT, hi, Option.getD_some] at hl ⊢
+      have t1 := Located.tail hl
+      have t2 := Located.tail t1
+      have t3 := Located.tail t2
+      have t4 := Located.tail t3
+      have t5 := Located.tail t4
+      have a := l_load (O := O) (P := P) (cs := cs) (s := flow :: rest) (L := L) hl.head hfv
+      have b := l_rot2 (O := O) (P := P) (cs := cs) (a := fv) (b := flow) (s := rest) (L := L) t1.head
+      have c := l_pop (O := O) (P := P) (cs := cs) (v := flow) (s := fv :: rest) (L := L) t2.head
+      have d := l_tuple (O := O) (P := P) (cs := cs) (id := 0) (vs := []) (rest := fv :: rest) (L := L) t3.head
+        (by simpa using hP.1)
+      have e := l_rot2 (O := O) (P := P) (cs := cs) (a := Val.tup 0 (ValList.ofList [])) (b := fv) (s := rest) (L := L)
+        (by simpa using t4.head)
+      have f : ARunsC O P code cs (pc + 1 + 1 + 1 + 1 + 1, fv :: Val.nil :: rest, L)
+          (pc + 1 + 1 + 1 + 1 + 1 + 1, res :: rest, L) :=
+        .call fv Val.nil res t5.head hres (.refl _)
+      have := ((((a.trans b).trans c).trans (by simpa using d)).trans (by simpa [ValList.ofList] using e)).trans
+        (by simpa [Val.nil] using f)
+      simpa using this
   theorem compileCh_aruns (hO : OracleIntEq O) (hP : wfProg P) (hsz : code.size < 2 ^ 63 - 1) :
       (c : Ch3) → (Γ : List String) → (pc : Nat) → (flow : Val) → (rest L : List Val) → (v : Val) →
       (L' : List Val) → C02S.Located code pc (compileCh Γ c).1 → wfCh P c → L.length = Γ.length →
